@@ -298,6 +298,26 @@ func init() {
 		if thorough {
 			nSeq = 8000
 		}
+		// a derived extractor does not depend on what happens to the extractor it came from
+		for _, first := range []string{"PageCount", "IsMultiColumn", "nothing"} {
+			base := tabula.Open(pdfPath)
+			switch first {
+			case "PageCount":
+				base.PageCount()
+			case "IsMultiColumn":
+				base.IsMultiColumn()
+			}
+			d := base.Pages(2)
+			d2 := d.ExcludeHeaders()
+			base.Close()
+			t1, _, err1 := d.Text()
+			t2, _, err2 := d2.Text()
+			want, _, _ := tabula.Open(pdfPath).Pages(2).Text()
+			r.Check(err1 == nil && err2 == nil && t1 == want, "derived-after-base-close",
+				fmt.Sprintf("after base.%s, d := base.Pages(2), base.Close(): d.Text() = %q, %v; d.ExcludeHeaders().Text(): %q, %v; a fresh Pages(2).Text() = %q", first, t1, err1, t2, err2, want), Bs(first))
+			d.Close()
+			d2.Close()
+		}
 		for si := 0; si < nSeq; si++ {
 			path := pdfPath
 			kind := "pdf"
